@@ -339,11 +339,17 @@ inline int main_impl(int argc, char** argv) {
     auto next = [&]() -> std::string { if (i + 1 >= argc) { std::cerr << "missing value for " << a << "\n"; std::exit(2); } return argv[++i]; };
     if (a == "--worker") mode = "worker"; else if (a == "--replay") { mode = "replay"; file = next(); }
     else if (a == "--shrink") { mode = "shrink"; file = next(); out = next(); }
+    else if (a == "--tape2bin") { mode = "tape2bin"; file = next(); out = next(); }
     else if (a == "--seed") seed = std::strtoull(next().c_str(), 0, 10); else if (a == "--cases") cases = std::atol(next().c_str());
     else if (a == "--size") size = std::atoi(next().c_str()); else if (a == "--secs") secs = std::atof(next().c_str());
     else if (a == "--out") out = next(); else if (a == "--failout") failout = next(); else if (a == "--verbose") verbose = true; else if (a == "--survey") survey = true;
     else if (a == "--mute") muted().insert(next());
     else { std::cerr << "unknown argument " << a << "\n"; return 2; }
+  }
+  if (mode == "tape2bin") {   // corpus entry for the libFuzzer target: the tape as little-endian 32-bit words
+    std::vector<uint32_t> tape; if (!read_tape(file, tape)) { std::cerr << "cannot read " << file << "\n"; return 2; }
+    std::ofstream f(out.c_str(), std::ios::binary); for (size_t i = 0; i < tape.size(); ++i) for (int b = 0; b < 4; ++b) f.put((char) ((tape[i] >> (8 * b)) & 0xff));
+    return 0;
   }
   if (mode == "replay") {
     std::vector<uint32_t> tape; if (!read_tape(file, tape)) { std::cerr << "cannot read " << file << "\n"; return 2; }
@@ -414,5 +420,27 @@ inline int main_impl(int argc, char** argv) {
 }
 } // namespace vf
 
+#ifdef VF_LIBFUZZER
+// libFuzzer entry point (build: make FLV=fuzz bin/fz_<harness>): the input bytes ARE the choice tape (little-endian 32-bit words), so that
+// coverage feedback steers the same structured decoder the rapidcheck search uses.  The semantic oracle is inside the target: a failing
+// check writes the tape in the usual text format (replayable with bin/<harness> --replay) and traps.  Saved tapes converted with
+// `--tape2bin` are corpus entries.  Inconclusive cases and muted/known classes return normally.
+namespace vf { inline int fuzz_one(const uint8_t* data, size_t size) {
+  std::vector<uint32_t> tape(size / 4);
+  for (size_t i = 0; i < tape.size(); ++i) tape[i] = (uint32_t) data[4 * i] | ((uint32_t) data[4 * i + 1] << 8) | ((uint32_t) data[4 * i + 2] << 16) | ((uint32_t) data[4 * i + 3] << 24);
+  static unsigned long n = 0, nt = 0; ++n;
+  Outcome o = run_one(tape);
+  if (o.nontrivial) ++nt;
+  if (o.kind == Outcome::FAIL) {
+    const char* out = std::getenv("VF_FUZZ_FAILOUT");
+    write_tape(out ? out : "fuzz-fail.tape", tape, &o, "found by libFuzzer");
+    std::cerr << "RESULT fail check=" << o.id << " :: " << o.msg.substr(0, 600) << "\n" << "FUZZ-STATS cases=" << n << " nontrivial=" << nt << std::endl;
+    __builtin_trap();
+  }
+  if ((n & 0xfff) == 0) { if (const char* st = std::getenv("VF_FUZZ_STATS")) { std::ofstream f(st); f << "{\"cases\": " << n << ", \"nontrivial\": " << nt << "}\n"; } }
+  return 0; } }
+#define VF_MAIN extern "C" int LLVMFuzzerTestOneInput(const uint8_t* data, size_t size) { return vf::fuzz_one(data, size); }
+#else
 #define VF_MAIN int main(int argc, char** argv) { return vf::main_impl(argc, argv); }
+#endif
 #endif
